@@ -45,6 +45,8 @@ Items == {
   Stmt("Ov", TRUE, <<Bin("+", Bin("*", Par("a"), Par("ab")), Par("al")), Bin("/", Par("alpha"), Par("al"))>>, <<Kw("w", Bin("-", Bin("*", I(2), Par("s")), Par("sq")))>>, <<I(0)>>, "none"),
   Stmt("Np", TRUE, <<NegE([t |-> "brk", a |-> Bin("**", Par("a"), I(2))]), Bin("*", NegE(I(2)), Bin("**", Par("a"), I(3)))>>,
                    <<Kw("m", Bin("-", I(0), Bin("**", Par("s"), I(3)))), Kw("r", NegE([t |-> "brk", a |-> Bin("**", Reg(0), I(2))]))>>, <<I(1)>>, "none"),
+  \* measured registers (one- and two-digit) inside a list-valued keyword, next to a parameter element; strings that look like other things
+  Stmt("Lr", TRUE, <<SStr("1.5"), SStr("p0")>>, <<Kw("k", LstE(<<Reg(10), F(1, 2), Bin("*", I(2), Reg(1)), Par("a"), SStr("True"), SStr("{a}")>>)), Kw("z", Cpx(2, 0))>>, <<I(2)>>, "none"),
   \* complex coefficients of a parameter and of a measured register
   Stmt("Ci", TRUE, <<Bin("*", Par("s"), Cpx(0, 1)), Bin("+", Bin("*", Cpx(1, 2), Par("a")), I(1))>>, <<Kw("z", Bin("*", Cpx(0, 2), Reg(1)))>>, <<I(0)>>, "none"),
   Stmt("Rg", TRUE, <<Reg(0), Bin("*", I(2), Reg(1))>>, <<Kw("phi", Bin("+", Bin("*", F(1, 2), Reg(10)), Reg(1)))>>, <<I(2)>>, "none"),
